@@ -86,9 +86,20 @@ static long long run_case(void (*fn)(void), long long k, int sticky) {
 	return allocs;
 }
 
+#if defined(__SANITIZE_ADDRESS__)
+static void __attribute__((noinline)) lsan_probe_leak(void) { volatile char *p; int i; for (i = 0; i < 8; i++) { p = malloc(37 + (size_t)i); p[0] = 1; } p = NULL; (void)p; }
+#endif
 int main(int argc, char **argv) {
 	PMemVTable vt; int i, modes = (int)vh_argi(argc, argv, "--modes", 3); long long N, k; void (*fn)(void) = NULL; double t0 = vh_now(); long long cases = 0;
 	if (vh_flag(argc, argv, "--list")) { for (i = 0; i < NSC; i++) puts(SC[i].name); return 0; }
+	if (vh_flag(argc, argv, "--lsan-probe")) {     /* does the leak checker work in this environment?  (it needs ptrace on its own threads) */
+#if defined(__SANITIZE_ADDRESS__)
+		char pad[256]; lsan_probe_leak(); memset(pad, 0, sizeof pad); printf("{\"ev\":\"lsan-probe\",\"found\":%d}\n", __lsan_do_recoverable_leak_check());
+#else
+		printf("{\"ev\":\"lsan-probe\",\"found\":-1}\n");
+#endif
+		fflush(NULL); _exit(0);
+	}
 	scname = vh_arg(argc, argv, "--scenario", "list");
 	for (i = 0; i < NSC; i++) if (!strcmp(SC[i].name, scname)) fn = SC[i].fn;
 	if (!fn) VH_DIE("unknown scenario %s", scname);
